@@ -155,16 +155,7 @@ theorem C12_checkpoint (cv : Crypto) (key : PubKey) (kh : Bytes → Nat) (note :
 /-! ## Non-vacuity: a two-entry log in the free hash algebra (no collisions by construction) -/
 section examples
 
-inductive T where
-  | leaf (b : Bytes)
-  | node (a b : T)
-  | empty
-deriving DecidableEq
-
-def thf : HashFn T := ⟨T.leaf, T.node, T.empty⟩
-
-theorem thf_leafInj : LeafInj thf := fun a b h => by cases h; rfl
-theorem thf_nodeInj : NodeInj thf.node := fun a b c d h => by cases h; exact ⟨rfl, rfl⟩
+open ClientV.Demo
 
 def e0 : LogEntry := { certificate := [1, 2, 3], isPrecert := false, issuerKeyHash := zeros32, chainFingerprints := [],
                        preCertificate := [], leafIndex := 0, archival := false, timestamp := 5 }
